@@ -151,7 +151,7 @@ impl Check for C18 {
         "C18"
     }
     fn rule(&self) -> String {
-        "C06's generated trees (files of up to 137 blocks, empty files, nested directories, links) copied with --fsync under the ptrace supervisor with a generated (driver, workers in {1,2,3,4,8,16,64}, schedule kind incl. one starved worker and workers-first, seed, priority change points); for a fifth of the cases FICLONE is emulated as successful for about half of the files. Oracle over the syscall log of every exit-0 run, per regular destination file: a successful fsync/fdatasync on that file is issued after the return of the last copy_file_range/write/pwrite/ftruncate/fallocate/successful FICLONE on it (global entry/exit stamps), i.e. before exit. Non-trivial: exit 0, >= 2 workers and (a multi-block file or >= 4 files); the class key records whether block completions were reordered relative to issue order; distinct by case hash.".into()
+        "C06's generated trees (files of up to 137 blocks, empty files, nested directories, links) copied with --fsync under the ptrace supervisor with a generated (driver, workers in {1,2,3,4,8,16,64}, schedule kind incl. one starved worker and workers-first, seed, priority change points); for a fifth of the cases FICLONE is emulated as successful for about half of the files; for a seventh copy_file_range is unavailable (user-space fallback: pwrite); --no-perms/--no-timestamps/--ownership noise, with --ownership optionally every chown failing with EPERM (a documented warning: exit 0 and the fsync still due); one case in eight with source and destination on tmpfs (/dev/shm). Oracle over the syscall log of every exit-0 run, per regular destination file: a successful fsync/fdatasync on that file is issued after the return of the last copy_file_range/write/pwrite/ftruncate/fallocate/successful FICLONE on it (global entry/exit stamps), i.e. before exit. Non-trivial: exit 0, >= 2 workers and (a multi-block file or >= 4 files); the class key records whether block completions were reordered relative to issue order; distinct by case hash.".into()
     }
     fn needs(&self) -> Needs {
         Needs { xcp: true, probe: false, fallback: false }
